@@ -5,6 +5,8 @@ import CoercionModel.Proofs.TranslatedPlan
 import CoercionModel.Proofs.FixPlan
 import CoercionModel.Model.Skeletons
 import CoercionModel.Generated.F10
+import CoercionModel.Model.SkeletonsRest
+import CoercionModel.Generated.F14
 set_option linter.unusedSimpArgs false
 /-
   C06 — Bypass and pre-check gating: what must not run does not run.
@@ -162,5 +164,9 @@ theorem recovery_bypassed_block_runs_nothing (exec : Sequence → Sequence × Bo
   rw [Translated.fixBlock_eq]; exact Fix.fixBlock_bypassed exec now b hr hb
 
 example : Fix.grpStatus ({ status := .running, pre := some { status := .failed } } : Block).pre = some .failed := by decide
+
+/-- the engine functions this property's model depends on only through their effects (group `gatesRest` of
+    Model/SkeletonsRest) still have the shape they were read with (regenerated from /repo on every run) -/
+theorem facts_skeleton_rest : Generated.F14.gatesRest = SkeletonsRest.gatesRest := by rfl
 
 end Coercion.C06
